@@ -43,12 +43,17 @@ def transfer_calls(p):
     return [e for e in p.effects if e.kind in ('call', 'icall') and e.name in TRANSFER]
 
 
-def remaining_var(lmap, total):
+def remaining_var(lmap, total, selfref=None):
     """([key], counts_up) of the loop variable that keeps the account of a transfer loop"""
-    down = [k for k, (h, pre) in lmap.items() if pre is not None and strip_cast(pre) == total]
+    # only what the loop really carries from one iteration to the next (a status preset to 0 that is set just before the
+    # loop is left keeps its value at the loop head and is no account)
+    down = [k for k, (h, pre) in lmap.items() if pre is not None and strip_cast(pre) == total and h[0] == 'h']
     if down:
         return down, False
-    upv = [k for k, (h, pre) in lmap.items() if pre is not None and strip_cast(pre) == C(0)]
+    upv = [k for k, (h, pre) in lmap.items() if pre is not None and strip_cast(pre) == C(0) and h[0] == 'h' and k[0] == 'v']
+    if len(upv) > 1 and selfref is not None:
+        # an account is updated from its own value (done += moved); a variable that merely receives each step's result is none
+        upv = [k for k in upv if k in selfref] or upv
     return upv, True
 
 
@@ -81,6 +86,11 @@ def retry_loop_rule(ck, u, eng, fname, paths, base_param, total_param):
         return ck.violation('C17.a', fname + ':complete', where,
                             'the transfer loop has no exit for a completed request: after the last octet the driver is called again with nothing left to move')
     nprog = nretry = nerr = norem = 0
+    selfref = None
+    for q in paths:
+        if q.end == 'loopback' and q.loops:
+            cur = set(k for k, (h, pre) in q.loops[-1][1].items() if sym.contains(q.mem.get(k, h), h))
+            selfref = cur if selfref is None else (selfref & cur)
     for p in iters:
         tc = transfer_calls(p)
         if len(tc) != 1:
@@ -91,7 +101,7 @@ def retry_loop_rule(ck, u, eng, fname, paths, base_param, total_param):
         lmap = p.loops[-1][1]
         # the account of the loop: a loop-carried variable that starts at the requested count and runs down (what
         # remains), or one that starts at 0 and runs up (what is done; remaining = total - done)
-        rem, up = remaining_var(lmap, total)
+        rem, up = remaining_var(lmap, total, selfref)
         if len(rem) != 1:
             unchanged = all(strip_cast(p.mem.get(k, h)) == h for k, (h, pre) in lmap.items() if pre is not None)
             if p.end == 'loopback' and unchanged and eng.entails(p, -L(e.result)):
@@ -172,7 +182,7 @@ def retry_loop_rule(ck, u, eng, fname, paths, base_param, total_param):
         return ck.broken('C17.b', fname + ':counter', where, 'cannot identify the remaining-count variable')
     for p in exits:
         lmap = p.loops[-1][1]
-        rem, up = remaining_var(lmap, total)
+        rem, up = remaining_var(lmap, total, selfref)
         if len(rem) == 1:
             z = (L(total) - L(lmap[rem[0]][0])) if up else L(lmap[rem[0]][0])
             done = eng.entails(p, z) and eng.entails(p, -z)
